@@ -114,6 +114,10 @@ def main(tier):
         run.inconclusive_because("too few kernels ran")
     if run.counters.get("realloc_grow", 0) < 100:
         run.inconclusive_because("the capacity-growth branch was not exercised")
+    from .. import contracts_leg
+
+    if tier == "thorough":
+        contracts_leg.run(run, PID, tier)
     run.assumptions += [
         "the abstract machine models malloc/realloc with exact-size blocks and no slack; forming a pointer past a block "
         "without dereferencing it, realloc(p, 0) and int->double promotion on store are deliberately not flagged",
